@@ -33,7 +33,7 @@ def B2_for(*mods):
 prop("C01",
      lambda tier: [tls.rule_A5, B1_for("decryptor", "session"), tables.rule_T4, tables.rule_T3_classes, tables.rule_T3_iv, tls.rule_types, tls.rule_A4, tls.rule_PAD,
                    tls.rule_T10, tls.rule_D1, output.rule_A8, tcp.rule_tls_causality, output.rule_T7_split, output.rule_A7, B2_for("output_builder", "session"),
-                   tcp.rule_framing, tcp.rule_A9, tcp.rule_full_scans],
+                   tcp.rule_framing, tcp.rule_A9, tcp.rule_full_scans, tcp.rule_A6a],
      "Decides the necessary structure of per-record state and dispatch: sequence number read/increment pairing, CBC residue chaining from ciphertext, RC4 contexts "
      "created once, key switch at Finished assigning key+IV+seq of one direction (A5); direction arms are mirror images (B1); decrypt() dispatch equals the record "
      "protection of every valid (version, bulk) pair, by finite-domain guard evaluation (T4); parser/decryptor/IV-length tables agree (T3); record / handshake type "
@@ -45,7 +45,7 @@ prop("C01",
 prop("C02",
      lambda tier: [quic.rule_D8, quic.rule_T5_quic, quic.rule_T9_aad, quic.rule_T9_hp, quic.rule_epoch, quic.rule_D7b, quic.rule_frame_attrs,
                    B1_for("quic.quic_session", "quic.quic_dissector", "quic.quic_decryptor", "quic.quic_tls_parser", "quic.quic_output_builder"),
-                   pkn.rule_pn_spaces, progress.rule_A2, quic.rule_itermut, frames.rule_T8, state.rule_attr_kinds, tcp.rule_full_scans],
+                   pkn.rule_pn_spaces, progress.rule_A2, quic.rule_itermut, frames.rule_T8, state.rule_attr_kinds, tcp.rule_full_scans, quic.rule_crypto_reassembly, kdf.rule_T6_quic],
      "Decides: output grouping merges frames only within one input datagram and emits closed groups with their own time/direction (D8); key-name agreement producer → "
      "dissector/session with role and epoch, list positions of QuicDecryptor keys, decryptor per packet type (T5q); AAD = header in wire order per header form, nonce "
      "construction (T9a); header-protection constants (T9h); key-phase epoch rule (EPO); connection-ID matching only on non-empty IDs, CID learning (D7b); frame "
@@ -55,7 +55,7 @@ prop("C02",
 
 prop("C03",
      lambda tier: [escape.rule_A1, escape.rule_A1_records, escape.rule_A1_quic_packets, progress.rule_A2, tls.rule_A4, tls.rule_D1, state.rule_D6_ownership,
-                   tcp.rule_framing, B2_for("session"), state.rule_attr_kinds],
+                   tcp.rule_framing, B2_for("session"), state.rule_attr_kinds, mirror.rule_B3_match],
      "Decides 'never makes the run fail' as an interprocedural may-raise analysis: every site of classes S1–S6 (raise, index/key lookup, non-total external call, "
      "possibly-unbound local, attribute not set by every constructor path, data-dependent division) reachable from an iteration of run()'s capture loop or "
      "finalisation loops is covered by a handler inside that iteration (A1), per record for TLS (A1r), the dissector absorbs its own faults (A1q); every data-driven "
@@ -92,7 +92,7 @@ prop("C06",
 
 prop("C07",
      lambda tier: [output.rule_D2, tcp.rule_framing, mirror.rule_B3_bind, B2_for("output_builder", "session"), B1_for("quic.quic_output_builder", "output_builder"),
-                   quic.rule_D8, output.rule_D3, mirror.rule_B3_match, output.rule_A7, tcp.rule_full_scans],
+                   quic.rule_D8, output.rule_D3, mirror.rule_B3_match, output.rule_A7, tcp.rule_full_scans, pcapng.rule_T9_pcapng, cli.rule_D4],
      "Decides: timestamps flow without arithmetic from the reader's (ts, buf) pair through Packet.timestamp / record.metadata resp. QuicPacket.ts to the emitted "
      "(frame, ts) pairs; handshake time = first record's first packet (D2); a record is attributed to exactly the packets overlapping its byte range (FR overlap); "
      "role binding from the first packet (B3b); address/port/MAC orientation per arm (B1/B2, A7 sender check); QUIC group time and direction travel together (D8); IP "
@@ -110,7 +110,7 @@ prop("C08",
      ["C18 (determinism) assumed"], controls=["c08-lookahead"])
 
 prop("C09",
-     lambda tier: [keylog.rule_E2_grammar, keylog.rule_E2_pipeline, keylog.rule_E2_cli, keylog.rule_D7, pcapng.rule_T9_pcapng],
+     lambda tier: [keylog.rule_E2_grammar, keylog.rule_E2_pipeline, keylog.rule_E2_cli, keylog.rule_D7, pcapng.rule_T9_pcapng, tcp.rule_full_scans, pcapng.rule_E3],
      "Decides: the key-log line pattern (parsed with re._parser) admits both hex cases and every label literal the consumers compare against, rejects "
      "comments/blank lines (E2a); CR is removed before splitting, file and DSB secrets share one parser and one Key construction site, DSB payloads are "
      "ingested under ts == -1 before any dispatch, the TLS secret lookup is reachable only from finalisation (E2b); -s defaults to None (E2c); secrets are "
@@ -132,7 +132,7 @@ prop("C11",
      "nor the UDP 0x0000/0xFFFF special case.", ["dpkt exposes ip.p / ip.nxt / tcp.sum / udp.sum as parsed"], controls=["c11-fold-off-by-one"])
 
 prop("C12",
-     lambda tier: [pcapng.rule_E3, pcapng.rule_T9_pcapng],
+     lambda tier: [pcapng.rule_E3, pcapng.rule_T9_pcapng, tcp.rule_full_scans],
      "Decides: every byte-order-dependent choice in the pcapng reader is `XLE if le else X` / '<'+f / '>'+f with the same X / f, the flag is set from the "
      "matching magic, block type ↔ block class agreement (E3); if_tsresol decoding constants, identical EPB/PB timestamp expression, unconditional block "
      "consumption before type dispatch (unknown blocks skipped), reader selection by -l (T9p). Does not decide dpkt's own classes.",
@@ -158,7 +158,7 @@ prop("C14",
      controls=["c14-sha-before-sha256"])
 
 prop("C15",
-     lambda tier: [kdf.rule_T6, kdf.rule_T7_keyblock, kdf.rule_T5_tls, quic.rule_T5_quic, kdf.rule_B4, tables.rule_T3_iv, quic.rule_T9_hp, tcp.rule_full_scans],
+     lambda tier: [kdf.rule_T6, kdf.rule_T7_keyblock, kdf.rule_T5_tls, quic.rule_T5_quic, kdf.rule_B4, tables.rule_T3_iv, quic.rule_T9_hp, tcp.rule_full_scans, quic.rule_epoch],
      "Decides: every HKDF-Expand call site (TLS 1.3: 8, QUIC: 18 + Initial 6 + key update 6) derives the key/iv/hp of the role and epoch of the key-log label it is "
      "guarded by, with the RFC label bytes, declared lengths and output lengths; Initial keys independent of the negotiated suite; PRF labels, seed orders per purpose "
      "and PRF hash selection (T6); key block partitioned into consecutive gap-free slices MAC_c, MAC_s, key_c, key_s, IV_c, IV_s, by polynomial normal forms (T7k); "
@@ -184,7 +184,7 @@ prop("C17",
      ["RFC 9000 §19 / RFC 9221 §4 layout table in the checker"], controls=["c17-missing-field"])
 
 prop("C18",
-     lambda tier: [state.rule_D6_reinit, state.rule_D6_nondet, state.rule_D6_paths, state.rule_D6_ownership],
+     lambda tier: [state.rule_D6_reinit, state.rule_D6_nondet, state.rule_D6_paths, state.rule_D6_ownership, output.rule_A8, state.rule_attr_kinds],
      "Decides the absence of nondeterminism sources in the code reachable from run(): no hash/id/random/time/env/cwd calls, no order-sensitive iteration "
      "over sets (D6b), no cwd-relative implicit input (D6c), every module-level mutable object run() mutates is re-initialised by run() before use (D6r), "
      "no shared mutable class/module state in flow classes (D6a). Does not decide determinism of scapy/dpkt/cryptography internals.",
